@@ -1,7 +1,13 @@
 (** Extract.v — extraction of the executable model to OCaml.  Only ExtrOcamlBasic is used
     (bool, option, unit, list, prod, sumbool mapped to the OCaml types of the same shape);
-    Z, positive, N, nat and every model datatype stay extracted Coq datatypes. *)
+    Z, positive, N, nat, spec_float and every model datatype stay extracted Coq datatypes. *)
 Require Import ExtrOcamlBasic.
-From CJ Require Import Base MinifyDefs.
+From CJ Require Import Base Dbl Tree LibcNum MinifyDefs PointerDefs CompareDefs ParseDefs ParseEntry.
 Extraction Language OCaml.
-Extraction "model.ml" Base.cstr MinifyDefs.cJSON_Minify MinifyDefs.minify_spec.
+Extraction "model.ml"
+  Base.cstr Dbl.sf_of_bits Dbl.bits_of_sf Dbl.sat_int Dbl.compare_double Tree.node_size Tree.subtree
+  MinifyDefs.cJSON_Minify MinifyDefs.minify_spec
+  PointerDefs.cJSONUtils_GetPointerCaseSensitive PointerDefs.cJSONUtils_GetPointer
+  PointerDefs.cJSONUtils_FindPointerFromObjectTo PointerDefs.rfc6901
+  CompareDefs.cJSON_Compare
+  LibcNum.strtod_ref ParseDefs.blocks ParseEntry.run_parse_with_length_opts ParseEntry.run_parse_with_opts ParseEntry.run_text_l.
